@@ -2,6 +2,7 @@
 #include <stdint.h>
 void     w_can_create(uint8_t* pdu, uint64_t id, uint8_t* payload, uint64_t len, uint64_t variant);
 void     w_can_steps(uint8_t* pdu, uint64_t id, uint8_t* payload, uint64_t len, uint64_t variant);
+void     w_can_steps_inplace(uint8_t* pdu, uint64_t id, uint8_t* payload, uint64_t len, uint64_t variant);
 uint64_t w_can_paylen(uint8_t* pdu);
 uint64_t w_can_payoff(uint8_t* pdu);
 uint64_t w_canbrief_create(uint8_t* pdu, uint64_t id, uint8_t* payload, uint64_t len, uint64_t variant);
@@ -12,7 +13,9 @@ void     w_vss_set_path(uint8_t* pdu, uint64_t kind, uint64_t static_id, uint8_t
 void     w_vss_get_path(uint8_t* pdu, uint64_t kind, uint8_t* dest, uint8_t* out);
 void     w_vss_set_data(uint8_t* pdu, uint64_t shape, uint8_t* canon, uint64_t nbytes, uint8_t* typed);
 void     w_vss_get_data(uint8_t* pdu, uint64_t shape, uint8_t* dest, uint8_t* out_canon, uint8_t* meta);
+void     w_vss_get_data2(uint8_t* pdu, uint64_t shape, uint8_t* dest, uint8_t* out_canon, uint8_t* meta, uint64_t prefill);
 uint64_t w_sa_pack(uint8_t* lens_be, uint8_t* bytes, uint64_t n, uint8_t* packed);
+uint64_t w_sa_pack2(uint8_t* lens_be, uint8_t* bytes, uint64_t n, uint8_t* packed, uint64_t null_for_empty);
 uint64_t w_sa_count(uint8_t* packed, uint64_t data_length);
 uint64_t w_sa_unpack(uint8_t* packed, uint64_t data_length, uint64_t req, uint8_t* dest, uint8_t* offs_be, uint8_t* out_lens_be);
 uint64_t w_bo2(uint64_t helper, uint64_t x, uint8_t* image);
